@@ -20,7 +20,7 @@ claimed = {
          "expression-shape matching + origin analysis + ownership/liveness analysis of MulAcc accumulators", "§4 C07 / §10.8"),
  "C08": ("narrow structural clauses only (level other): InverseExtension asserts the product of both coordinates' zero tests is 0; DivExtension forwards its divisor to it. Field identities are not decided.",
          "expression-shape matching + must-call", "§4 C08"),
- "C09": ("narrow structural clauses only (level other): inputs reduced first (full-range loop, only reduction results reach the sponge); permutation is a function (R1/W1 of the s-box reductions); sibling constant tables agree and are canonical. Equality with plonky2 for all inputs is not decided.",
+ "C09": ("narrow structural clauses only (level other): inputs reduced first (full-range loop, only reduction results reach the sponge); permutation is a function (R1/W1 of the s-box reductions); sibling constant tables agree and are canonical; the sponge absorbs in overwrite mode and squeezes from the rate part only (loop bounded by SPONGE_RATE). Equality with plonky2 for all inputs is not decided.",
          "origin analysis + constant-table comparison from type-checked syntax", "§4 C09"),
  "C10": ("narrow structural clauses only (level other): the injectivity half of the property — limb packing in HashNoPad/HashOrNoop is Σ limb_k·base^k with constant base ≥ 2^64, exponent = limb index, bounded limb count with base^T ≤ r; ToVec chunks the canonical decomposition into consecutive disjoint ≤63-bit chunks; MulAcc accumulator discipline at every MulAcc site of the poseidon package (builder-independent results). Numeric agreement of the BN254 Poseidon permutation/sponge/shortcut with the reference PoseidonBN128 is NOT decided (no sound static argument in reach).",
          "recurrence extraction from SSA phis + constant evaluation of package initialisers + slice-bound reasoning + ownership/liveness analysis of MulAcc accumulators", "§4 C10 / §10.6 / §10.8"),
@@ -40,7 +40,7 @@ claimed = {
          "type-generated field coverage + must-execute + loop-coverage analysis", "§4 C17"),
  "C18": ("strong structural claim (level other): language-level analysis of the gate regex registry (product/subset automata via regexp/syntax): each supported identifier template matches its own pattern and no other (independence of map order), no pattern matches an unimplemented gate template unless the handler refuses, the no-match exit panics, capture groups flow through checked strconv parses into the tabled constructor arguments, hiding is refused.",
          "regular-language disjointness (automata) + SSA parameter-flow analysis", "§4 C18"),
- "C19": ("partial (level other): every json.Unmarshal error is checked; raw decoder leaf types are uint64/string only; SetString uses base 10 with unmerged result; field-by-field copy completeness and position (full-range, same index). Value equality for arbitrary documents is not decided.",
+ "C19": ("partial (level other): every json.Unmarshal error is checked; raw decoder leaf types are uint64/string only; SetString uses base 10 with unmerged result; field-by-field copy completeness and position (full-range over the very list that is read at the loop's index, same index); raw 64-bit leaves are wrapped into variables as decoded (no intermediate computation). Value equality for arbitrary documents is not decided.",
          "decoder-discipline lint over go/types + SSA copy-map analysis", "§4 C19"),
  "C20": ("guard presence (level other): the 20 shape refusals, keyed by the compared quantities, execute on every path for all elements of the list they validate. That a shape change not covered by a guard is rejected by the equations is not decided.",
          "T3 guard table over must-execute analysis", "§4 C20"),
